@@ -17,7 +17,8 @@ def convRow (r : BuiltinOps.Row) : Row :=
 
 def genView : BView :=
   { chunks := BuiltinOps.rows.map (·.map convRow), chunkSize := BuiltinOps.chunkSize,
-    index := BuiltinOps.rowIndex, user := BuiltinOps.userIdx }
+    index := BuiltinOps.rowIndex, user := BuiltinOps.userIdx,
+    userIter := BuiltinOps.userIterIdx }
 
 /-- the index function enumerates the rows in order: the key of the j-th row of chunk ci has
 position ci * chunkSize + j (so every row is found under its own key) -/
